@@ -81,8 +81,6 @@ def sec_addgrad():
         'common_delay = np.min(delays)',
         'if g.delay - common_delay > 0:',
         'waveforms[ii] = np.concatenate((np.zeros(round((g.delay - common_delay) / system.grad_raster_time)), waveforms[ii]))',
-        'grad.first = np.sum(firsts[np.array(delays) == common_delay])',
-        'grad.last = np.sum(lasts[durs == durs.max()])',
         'if max_grad <= 0:',
         'if max_slew <= 0:',
     ]
@@ -117,8 +115,16 @@ def sec_addgrad():
               'if abs(amplitude2) / fall_time > max_slew * (1 + eps):']:
         if e not in s5:
             raise TranslateError('make_trapezoid: statement not found: `%s`' % e)
+    # selection of the inputs that start first / end last: exact float equality or |difference| < eps
+    exact = ('grad.first = np.sum(firsts[np.array(delays) == common_delay])' in src
+             and 'grad.last = np.sum(lasts[durs == durs.max()])' in src)
+    toler = ('grad.first = np.sum(firsts[np.abs(np.array(delays) - common_delay) < eps])' in src
+             and 'grad.last = np.sum(lasts[np.abs(durs - durs.max()) < eps])' in src)
+    if exact == toler:
+        raise TranslateError('add_gradients: selection of first/last contributors changed')
+    tol = Fraction(0) if exact else eps
     pt, pe, pa = _passes(mt[0]), _passes(me[0]), _passes(ma[0])
-    CONSTS['addgrad'] = {'eps': eps, 'trap_passes_limits': pt, 'ext_passes_limits': pe, 'arb_passes_limits': pa}
+    CONSTS['addgrad'] = {'eps': eps, 'trap_passes_limits': pt, 'ext_passes_limits': pe, 'arb_passes_limits': pa, 'startend_tol': tol}
     b = lambda x: 'true' if x else 'false'
     out = HEADER % 'add_gradients.py, points_to_waveform.py, make_*.py, __init__.py (eps)'
     out += 'Open Scope Q_scope.\n\n'
@@ -127,6 +133,9 @@ def sec_addgrad():
             'Definition ag_trap_passes_limits : bool := %s.\n'
             'Definition ag_ext_passes_limits : bool := %s.\n'
             'Definition ag_arb_passes_limits : bool := %s.\n' % (b(pt), b(pe), b(pa)))
+    out += ('\n(* inputs whose delay (duration) is within this of the smallest delay (largest duration) contribute to\n'
+            '   first (last) on the raster path; 0 = exact equality `==` *)\n'
+            'Definition ag_startend_tol : Q := %s.\n' % coq_Q(tol))
     return out
 
 
@@ -145,7 +154,9 @@ def _fp_add():
             if isinstance(n, ast.Call) and unparse(n.func) in ('make_trapezoid', 'make_extended_trapezoid',
                                                                'make_arbitrary_grad'):
                 n.keywords = [k for k in n.keywords if k.arg not in ('max_grad', 'max_slew')]
-    return fn
+    # the first/last selection form is a generated constant too (ag_startend_tol)
+    nodes = [n for n in nodes if not (isinstance(n, ast.Assign) and unparse(n.targets[0]) in ('grad.first', 'grad.last'))]
+    return nodes
 
 
 def _fp_p2w():
